@@ -29,6 +29,8 @@ what = {
  "D22": "two evaluations of Exactly[A] are unequal objects (SingleFunctionHandler has identity equality) and compare MORE in both directions",
  "D17": "subclasscheck is not transitive through {pair}: B <= A <= T but not B <= T; inherent in the documented meaning of the constructor",
 }
+what["D23"] = what["D23"] + "; or it sits in one type-level rank with static methods that recency or a lower rank would have separated, and the dispatcher of that rank, which counts matches, reports an ambiguity although the documented rule has a winner"
+what["D8b"] = "an optional positional parameter passed by keyword while an earlier optional positional is omitted: the generated entry point exits at the first omitted positional, so the keyword-given one is not part of the lookup key (and may be rejected or routed to another method); residual of finding D8, whose repair keeps keyword-only arguments (recode.py generate_dispatch early exits)"
 path = "/verif/known_findings.json"
 try:
     data = json.load(open(path))
